@@ -107,6 +107,7 @@ const char* token_fault_name(int f)
     case TF_TRUNCATE: return "truncate";
     case TF_SIDE_EFFECT: return "side-effect";
     case TF_CHAN_ARITH: return "channel-arithmetic";
+    case TF_BAD_TERNARY: return "bad-conditional";
     }
     return "?";
 }
@@ -133,23 +134,23 @@ FaultResult apply_token_fault(const std::string& text, const std::vector<Token>&
     auto after = [&](size_t i) { return text.substr(toks[i].off + toks[i].len); };
     const bool decl_like = kind == BlockRef::GDECL || kind == BlockRef::TDECL || kind == BlockRef::PARAM ||
                            kind == BlockRef::SELECT || kind == BlockRef::SYSTEM;
-    if (fault == TF_SIDE_EFFECT || fault == TF_CHAN_ARITH) {
+    if (fault == TF_SIDE_EFFECT || fault == TF_CHAN_ARITH || fault == TF_BAD_TERNARY) {
         // appended once per block: only valid for ti == last token
         if (toks.empty() || ti + 1 != toks.size())
             return r;
-        std::string add = fault == TF_SIDE_EFFECT ? "gi0++ > 0" : chan + " + 1 > 0";
+        std::string add = fault == TF_SIDE_EFFECT ? "gi0++ > 0" : (fault == TF_CHAN_ARITH ? chan + " + 1 > 0" : "(gi0 > 0 ? " + chan + " : 1) > 0");
         switch (kind) {
         case BlockRef::GUARD:
         case BlockRef::INV: r.text = text + " && " + add; break;
         case BlockRef::PROB:
-            r.text = text + " + " + (fault == TF_SIDE_EFFECT ? std::string{"gi0++"} : chan);
+            r.text = text + " + " + (fault == TF_SIDE_EFFECT ? std::string{"gi0++"} : (fault == TF_CHAN_ARITH ? chan : "(gi0 > 0 ? " + chan + " : 1)"));
             if (text.find(':') != std::string::npos)
                 return r;
             break;
         case BlockRef::ASSIGN:
             if (fault == TF_SIDE_EFFECT)
                 return r;
-            r.text = text + ", gi0 = " + chan + " + 1";
+            r.text = text + ", gi0 = " + (fault == TF_CHAN_ARITH ? chan + " + 1" : "(gi0 > 0 ? " + chan + " : 1)");
             break;
         default: return r;
         }
@@ -159,7 +160,7 @@ FaultResult apply_token_fault(const std::string& text, const std::vector<Token>&
             size_t lc = text.rfind("//");
             if (lc != std::string::npos && (last_nl == std::string::npos || lc > last_nl))
                 return FaultResult{};
-            if (chan.empty() && fault == TF_CHAN_ARITH)
+            if (chan.empty() && fault != TF_SIDE_EFFECT)
                 return FaultResult{};
         }
         r.applied = true;
